@@ -9,14 +9,21 @@
 
    anchors (line numbers of /repo/src/vivarium/framework/lookup/...):
      table.py         ScalarTable.call 276-300           -> [scalar_call]
-                      CategoricalTable.call 228-261      -> [cat_group], [cat_groups], [cat_call]
+                      CategoricalTable.call 228-261      -> [cat_group], [cat_call]
                       InterpolatedTable.call 161-182     -> [gather], [with_year], [year_value], [table_call]
      interpolation.py Interpolation.__init__ 69-92       -> [group] (one Order0Interp per key tuple present in the data)
-                      Interpolation.__call__ 94-132      -> [interp_groups], [interp_call] (result.loc[labels] = df.loc[labels])
+                      Interpolation.__call__ 94-132      -> [run_groups], [by_groups], [interp_call]
+                                                            (result.loc[labels] = df.loc[labels])
                       Order0Interp.__init__ 309-327      -> [edges] (sorted distinct left edges), [max_right]
                       Order0Interp.__call__ 329-370      -> [digitize], [clamp], [out_of_range], [merge_left], [order0]
                       check_data_complete 193-262        -> [check_sub], [check_complete], [valid]
-                      validate_parameters 138-163        -> the non-empty / at-least-one-parameter part of [valid]      *)
+                      validate_parameters 138-163        -> the non-empty / at-least-one-parameter part of [valid]
+
+   Evaluation cost matters (the correspondence runs this model inside Coq on every case): quantities that the code
+   computes once per Order0Interp (the sorted left edges of every parameter) are computed once per group here too
+   ([all_edges], passed down), and the validation is run once per key tuple ([keys_of]).  The per-simulant
+   specification [lookup_row] / [lookup_one] at the end is written without that sharing; LookupProofs.v proves the
+   two agree. *)
 From Viv Require Import Common.
 Local Open Scope Z_scope.
 
@@ -64,7 +71,7 @@ Fixpoint lex_ltb (a b : list Z) : bool :=
 Fixpoint insert_key (x : list Z) (l : list (list Z)) : list (list Z) :=
   match l with
   | [] => [x]
-  | y :: r => if lex_ltb x y then x :: l else if zlist_eqb x y then l else y :: insert_key x r
+  | y :: r => if zlist_eqb x y then l else if lex_ltb x y then x :: l else y :: insert_key x r
   end.
 Definition sort_keys (l : list (list Z)) : list (list Z) := fold_right insert_key [] l.
 
@@ -78,6 +85,8 @@ Fixpoint set_nth (p : nat) (v : Z) (l : list Z) : list Z :=
   | _ :: r, O => v :: r
   | x :: r, S q => x :: set_nth q v r
   end.
+
+Definition is_nil {A} (l : list A) : bool := match l with [] => true | _ => false end.
 
 (* ------------------------------------------------------------------------------------------------------------ *)
 (* Order0Interp                                                                                                 *)
@@ -96,6 +105,7 @@ Definition group (d : list row) (key : list Z) : list row := filter (fun r => zl
 (* Order0Interp.__init__: parameter_bins[p] = {bins: sorted distinct left edges, max: largest right edge} *)
 Definition edges (G : list row) (p : nat) : list Z := sort_u (map (start p) G).
 Definition max_right (G : list row) (p : nat) : Z := col_max (map (stop p) G).
+Definition all_edges (G : list row) (k : nat) : list (list Z) := map (edges G) (seq 0 k).
 
 Definition param (p : nat) (s : simulant) : Z := nth p (sparams s) 0.
 
@@ -104,16 +114,19 @@ Definition out_of_range (G : list row) (p : nat) (ss : list (Z * simulant)) : bo
   let xs := map (fun s => param p (snd s)) ss in
   (col_min xs <? hd 0 (edges G p)) || (max_right G p <=? col_max xs).
 
-(* the left edges chosen for one simulant, one per parameter *)
-Definition chosen (G : list row) (k : nat) (s : simulant) : list Z :=
-  map (fun p => chosen_edge (edges G p) (param p s)) (seq 0 k).
+(* the left edges chosen for one simulant, one per parameter; Es = the edge lists of parameters p, p+1, ... *)
+Fixpoint chosen_from (p : nat) (Es : list (list Z)) (s : simulant) : list Z :=
+  match Es with
+  | [] => []
+  | E :: r => chosen_edge E (param p s) :: chosen_from (S p) r s
+  end.
 (* rows of the group whose left edges equal the chosen ones: what the merge on the *_start columns pairs up *)
 Definition matches (G : list row) (c : list Z) : list row := filter (fun r => zlist_eqb (starts r) c) G.
 
 (* interpolant_bins.merge(self.data, how="left", on=start columns): left order kept, one output row per match,
    a single NaN row when nothing matches *)
-Definition merge_left (G : list row) (k : nat) (ss : list (Z * simulant)) : list cells :=
-  flat_map (fun s => match matches G (chosen G k (snd s)) with
+Definition merge_left (G : list row) (Es : list (list Z)) (ss : list (Z * simulant)) : list cells :=
+  flat_map (fun s => match matches G (chosen_from 0 Es (snd s)) with
                      | [] => [None]
                      | ms => map (fun r => Some (rvals r)) ms
                      end) ss.
@@ -122,11 +135,11 @@ Definition merge_left (G : list row) (k : nat) (ss : list (Z * simulant)) : list
    `.set_index(index)` is positional and raises (ValueError: Length mismatch) when the merge changed the row count *)
 Definition order0 (ext : bool) (G : list row) (k : nat) (ss : list (Z * simulant)) : result frame :=
   if negb ext && existsb (fun p => out_of_range G p ss) (seq 0 k) then Rejected EConfig
-  else let m := merge_left G k ss in
+  else let m := merge_left G (all_edges G k) ss in
        if (length m =? length ss)%nat then Ok (combine (map fst ss) m) else Rejected EConfig.
 
 (* ------------------------------------------------------------------------------------------------------------ *)
-(* Interpolation.__call__                                                                                       *)
+(* Interpolation.__call__ / CategoricalTable.call: the loop over the key groups of the request                  *)
 (* ------------------------------------------------------------------------------------------------------------ *)
 (* result.loc[labels of df] = df : label-addressed assignment *)
 Definition assign (res df : frame) : frame :=
@@ -135,26 +148,36 @@ Definition assign (res df : frame) : frame :=
 Definition sub_table (ss : list (Z * simulant)) (key : list Z) : list (Z * simulant) :=
   filter (fun s => zlist_eqb (skeys (snd s)) key) ss.
 
-(* for key, sub_table in interpolants.groupby(keys): self.interpolations[key] (KeyError = EPopulation when the data
-   has no row with that key tuple), call it, write its rows into the result by label *)
-Fixpoint interp_groups (ext : bool) (d : list row) (k : nat) (ss : list (Z * simulant))
-                       (keys : list (list Z)) (res : frame) : result frame :=
-  match keys with
-  | [] => Ok res
-  | key :: rest =>
-      match group d key with
-      | [] => Rejected EPopulation
-      | G => match order0 ext G k (sub_table ss key) with
-             | Ok df => interp_groups ext d k ss rest (assign res df)
-             | Rejected e => Rejected e
-             | OutOfFuel => OutOfFuel
-             end
-      end
+Section Groups.
+  (* what is done with the sub-table of one key tuple *)
+  Variable f : list Z -> list (Z * simulant) -> result frame.
+
+  (* for key, sub_table in interpolants.groupby(keys): call it, write its rows into the result by label *)
+  Fixpoint run_groups (ss : list (Z * simulant)) (keys : list (list Z)) (res : frame) : result frame :=
+    match keys with
+    | [] => Ok res
+    | key :: rest =>
+        match f key (sub_table ss key) with
+        | Ok df => run_groups ss rest (assign res df)
+        | Rejected e => Rejected e
+        | OutOfFuel => OutOfFuel
+        end
+    end.
+
+  (* result = DataFrame(index=interpolants.index, dtype=float64)  (all NaN), then the groups in sorted key order *)
+  Definition by_groups (ss : list (Z * simulant)) : result frame :=
+    run_groups ss (sort_keys (map (fun s => skeys (snd s)) ss)) (map (fun s => (fst s, None)) ss).
+End Groups.
+
+(* self.interpolations[key] (KeyError = EPopulation when the data has no row with that key tuple) *)
+Definition interp_group (ext : bool) (d : list row) (k : nat) (key : list Z) (sub : list (Z * simulant)) : result frame :=
+  match group d key with
+  | [] => Rejected EPopulation
+  | G => order0 ext G k sub
   end.
 
-(* result = DataFrame(index=interpolants.index, dtype=float64)  (all NaN), then the groups in sorted key order *)
 Definition interp_call (ext : bool) (d : list row) (k : nat) (ss : list (Z * simulant)) : result frame :=
-  interp_groups ext d k ss (sort_keys (map (fun s => skeys (snd s)) ss)) (map (fun s => (fst s, None)) ss).
+  by_groups (interp_group ext d k) ss.
 
 (* ------------------------------------------------------------------------------------------------------------ *)
 (* InterpolatedTable.call                                                                                       *)
@@ -176,18 +199,22 @@ Definition year_value (D y yday : Z) : Z := D * (1461 * y + 4 * yday).
 
 Definition with_year (ypos : option nat) (yv : Z) (s : simulant) : simulant :=
   match ypos with None => s | Some p => mkSim (skeys s) (set_nth p yv (sparams s)) end.
+Definition with_year_all (ypos : option nat) (yv : Z) (ss : list (Z * simulant)) : list (Z * simulant) :=
+  map (fun s => (fst s, with_year ypos yv (snd s))) ss.
 
 (* ypos = position of `year` among the parameter columns (if any); yv = the value the table puts there *)
 Definition table_call (ext : bool) (d : list row) (k : nat) (ypos : option nat) (yv : Z)
                       (pop : list (Z * simulant)) (idx : list Z) : result frame :=
   match gather pop idx with
   | None => Rejected EPopulation
-  | Some ss => interp_call ext d k (map (fun s => (fst s, with_year ypos yv (snd s))) ss)
+  | Some ss => interp_call ext d k (with_year_all ypos yv ss)
   end.
 
 (* ------------------------------------------------------------------------------------------------------------ *)
 (* one simulant on its own: the specification the theorems are about (C15_local ties table_call to it)           *)
 (* ------------------------------------------------------------------------------------------------------------ *)
+Definition chosen (G : list row) (k : nat) (s : simulant) : list Z :=
+  map (fun p => chosen_edge (edges G p) (param p s)) (seq 0 k).
 Definition low_edge (G : list row) (p : nat) : Z := hd 0 (edges G p).
 Definition out_one (G : list row) (p : nat) (x : Z) : bool := (x <? low_edge G p) || (max_right G p <=? x).
 
@@ -207,6 +234,29 @@ Definition lookup_one (ext : bool) (d : list row) (k : nat) (s : simulant) : res
   | Ok o => Ok (option_map rvals o)
   | Rejected e => Rejected e
   | OutOfFuel => OutOfFuel
+  end.
+
+(* "the call on the whole request is the per-simulant function mapped over the request": first failure wins here;
+   WHICH error the real code reports when several simulants fail is not local, so results are compared with [agree] *)
+Fixpoint map_res (h : simulant -> result cells) (ss : list (Z * simulant)) : result frame :=
+  match ss with
+  | [] => Ok []
+  | s :: r => match h (snd s) with
+              | Ok v => match map_res h r with
+                        | Ok l => Ok ((fst s, v) :: l)
+                        | Rejected e => Rejected e
+                        | OutOfFuel => OutOfFuel
+                        end
+              | Rejected e => Rejected e
+              | OutOfFuel => OutOfFuel
+              end
+  end.
+
+Definition agree {A} (a b : result A) : Prop :=
+  match a, b with
+  | Ok x, Ok y => x = y
+  | Rejected _, Rejected _ => True
+  | _, _ => False
   end.
 
 (* ------------------------------------------------------------------------------------------------------------ *)
@@ -236,19 +286,24 @@ Fixpoint contiguous (l : list (Z * Z)) : bool :=
   end.
 
 (* the sub-table of parameter p that contains row r (rows agreeing with r on the other parameters' left edges):
-   it must show every distinct left edge of p (len(set(start)) < n_p_total -> ValueError) and be contiguous *)
-Definition check_sub (G : list row) (p : nat) (r : row) : bool :=
-  let T := filter (fun r' => eq_except p (starts r) (starts r')) G in
-  (length (edges G p) <=? length (edges T p))%nat
-  && contiguous (sort_bins (map (fun r' => (start p r', stop p r')) T)).
+   it must show every distinct left edge of p (len(set(start)) < n_p_total -> ValueError; n = n_p_total) and be
+   contiguous *)
+Definition sub_of (G : list row) (p : nat) (r : row) : list row :=
+  filter (fun r' => eq_except p (starts r) (starts r')) G.
+Definition bins_of (T : list row) (p : nat) : list (Z * Z) := map (fun r' => (start p r', stop p r')) T.
+Definition check_sub (G : list row) (p : nat) (n : nat) (r : row) : bool :=
+  let T := sub_of G p r in
+  (n <=? length (edges T p))%nat && contiguous (sort_bins (bins_of T p)).
 
 Definition check_complete (G : list row) (k : nat) : bool :=
-  forallb (fun p => forallb (check_sub G p) G) (seq 0 k).
+  forallb (fun p => let n := length (edges G p) in forallb (check_sub G p n) G) (seq 0 k).
+
+(* the key tuples present in the data: one Order0Interp (and one validation) each *)
+Definition keys_of (d : list row) : list (list Z) := sort_keys (map rkeys d).
 
 (* accepted by the validation the code performs when interpolation.validate is on *)
 Definition valid (k : nat) (d : list row) : bool :=
-  negb (match d with [] => true | _ => false end) && (0 <? k)%nat
-  && forallb (fun r => check_complete (group d (rkeys r)) k) d.
+  negb (is_nil d) && (0 <? k)%nat && forallb (fun key => check_complete (group d key) k) (keys_of d).
 
 (* representation invariant of a DataFrame: every row has a cell in every parameter column *)
 Definition shaped (k : nat) (d : list row) : bool := forallb (fun r => (length (rbins r) =? k)%nat) d.
@@ -259,7 +314,7 @@ Definition ends_agree_group (G : list row) (k : nat) : bool :=
   forallb (fun p => forallb (fun r => forallb (fun r' =>
     implb (start p r =? start p r') (stop p r =? stop p r')) G) G) (seq 0 k).
 Definition ends_agree (k : nat) (d : list row) : bool :=
-  forallb (fun r => ends_agree_group (group d (rkeys r)) k) d.
+  forallb (fun key => ends_agree_group (group d key) k) (keys_of d).
 
 Definition wf (k : nat) (d : list row) : bool := shaped k d && valid k d && ends_agree k d.
 
@@ -277,25 +332,15 @@ Definition cat_group (rows : list row) (sub : list (Z * simulant)) : result fram
          else Rejected EConfig
   end.
 
-Fixpoint cat_groups (d : list row) (ss : list (Z * simulant)) (keys : list (list Z)) (res : frame) : result frame :=
-  match keys with
-  | [] => Ok res
-  | key :: rest =>
-      match cat_group (group d key) (sub_table ss key) with
-      | Ok df => cat_groups d ss rest (assign res df)
-      | Rejected e => Rejected e
-      | OutOfFuel => OutOfFuel
-      end
-  end.
-
 Definition cat_call (d : list row) (pop : list (Z * simulant)) (idx : list Z) : result frame :=
   match gather pop idx with
   | None => Rejected EPopulation
-  | Some ss => cat_groups d ss (sort_keys (map (fun s => skeys (snd s)) ss)) (map (fun s => (fst s, None)) ss)
+  | Some ss => by_groups (fun key sub => cat_group (group d key) sub) ss
   end.
 
-Definition cat_row (d : list row) (s : simulant) : result row :=
-  match group d (skeys s) with [r] => Ok r | _ => Rejected EConfig end.
+(* one simulant on its own: the data row with the simulant's key tuple (exactly one) *)
+Definition cat_one (d : list row) (s : simulant) : result cells :=
+  match group d (skeys s) with [r] => Ok (Some (rvals r)) | _ => Rejected EConfig end.
 
 Fixpoint nodup_keys (d : list row) : bool :=
   match d with [] => true | r :: t => negb (existsb (fun r' => zlist_eqb (rkeys r') (rkeys r)) t) && nodup_keys t end.
@@ -352,17 +397,21 @@ Definition check_itable (t : itable) : bool :=
   let pop := map mk_sim rp in
   Bool.eqb (wf k d) grid &&
   if validate && negb (valid k d)
-  then (built =? 1) && match calls with [] => true | _ => false end
+  then (built =? 1) && is_nil calls
   else (built =? 0) && forallb (check_icall ext d k ypos D pop) calls.
 
 (* a context holds several tables over the same population *)
 Definition check_interp (ts : list itable) : bool := forallb check_itable ts.
 
-(* categorical: data, population, calls (labels, observation) *)
-Definition ctable := (list raw_row * list raw_sim * list (list Z * obs))%type.
+(* categorical: data (keys, values), population, calls (labels, observation) *)
+Definition craw_row := (list Z * list Z)%type.
+Definition mk_crow (r : craw_row) : row := mkRow (fst r) [] (snd r).
+Definition ctable := (list craw_row * list raw_sim * list (list Z * obs))%type.
 Definition check_ctable (t : ctable) : bool :=
   let '(rd, rp, calls) := t in
-  forallb (fun c => obs_agrees (cat_call (map mk_row rd) (map mk_sim rp) (fst c)) (snd c)) calls.
+  let d := map mk_crow rd in
+  let pop := map mk_sim rp in
+  forallb (fun c => obs_agrees (cat_call d pop (fst c)) (snd c)) calls.
 Definition check_cat (ts : list ctable) : bool := forallb check_ctable ts.
 
 (* scalar: values, calls (labels, returned (label, values) rows) *)
